@@ -13,20 +13,23 @@ EXTENDS Roll, Batch
 \* the law reads "live" as the docstring does, whatever the observation says
 LawCall(cl) == [live |-> "post"] @@ cl
 
+\* the call leaves the caller's data and chain as they were
+ArgsVerdict(o) == IF o.after.data # o.data_before THEN "data_argument_changed"
+                  ELSE IF o.after.chain # o.chain_before \/ o.after.keys # o.keys_before THEN "chain_argument_changed" ELSE ""
+
 Verdict(o) ==
     LET cc == LawCall(o.call) IN
     IF ~Domain(cc) THEN "malformed_observation"
     ELSE LET w == Apply(cc) IN
-    IF o.after.data # o.data_before THEN "data_argument_changed"
-    ELSE IF o.after.chain # o.chain_before \/ o.after.keys # o.keys_before THEN "chain_argument_changed"
-    ELSE IF o.loaded # w.loaded THEN "loaded"
+    IF o.loaded # w.loaded THEN "loaded"
     ELSE IF o.call.check = 1 /\ o.checked # w.checked THEN "live_check"
     ELSE IF o.out.kind # w.kind THEN "outcome_kind"
-    ELSE CASE w.kind = "exc"    -> IF o.out.cls = w.cls THEN "" ELSE "exception_class"
-           [] w.kind = "called" -> IF o.out.args = w.args THEN "" ELSE "do_if_no_n_arguments"
+    ELSE CASE w.kind = "exc"    -> IF o.out.cls = w.cls THEN ArgsVerdict(o) ELSE "exception_class"
+           [] w.kind = "called" -> IF o.out.args = w.args THEN ArgsVerdict(o) ELSE "do_if_no_n_arguments"
            [] w.kind = "ok"     -> IF o.out.data.rows # w.data.rows THEN "rows"
                                    ELSE IF o.out.data.cols # w.data.cols THEN "values"
-                                   ELSE IF \E i \in w.pinned : o.out.rolls[i] # w.rolls[i] THEN "roll_dates" ELSE ""
+                                   ELSE IF \E i \in w.pinned : o.out.rolls[i] # w.rolls[i] THEN "roll_dates"
+                                   ELSE ArgsVerdict(o)
 
 Init == BatchInit
 Next == BatchNext(Verdict)
